@@ -20,6 +20,11 @@ func init() {
 		variant{Prop: "C10", Name: "benign-newline-test-through-predicate", File: lx, Old: "\tif l.CurrentChar == '\\n' {\n\t\tl.Line++", New: "\tif isLineBreak(l.CurrentChar) {\n\t\tl.Line++", More: []edit{{File: "lexer/helpers.go", Old: "func isLetter(ch byte) bool {", New: "func isLineBreak(ch byte) bool {\n\treturn ch == '\\n'\n}\n\nfunc isLetter(ch byte) bool {"}}, Benign: true},
 		// R11.4
 		variant{Prop: "C11", Name: "error-list-capped", File: "parser/parser.go", Old: "\tp.errors = append(p.errors, err)", New: "\tif len(p.errors) < 100 {\n\t\tp.errors = append(p.errors, err)\n\t}", Rule: "R11.4", Construct: "every call appends"},
+		// R7.5
+		variant{Prop: "C07", Name: "utf8-last-code-point-excluded", File: "lexer/helpers.go", Old: "} else if codePoint <= 0x10FFFF {", New: "} else if codePoint < 0x10FFFF {", Rule: "R7.5", Construct: "U+10000..U+10FFFF"},
+		variant{Prop: "C07", Name: "utf8-three-byte-lead-marker", File: "lexer/helpers.go", Old: "0xE0 | byte(codePoint>>12),", New: "0xC0 | byte(codePoint>>12),", Rule: "R7.5", Construct: "U+0800..U+FFFF"},
+		variant{Prop: "C07", Name: "utf8-continuation-shift", File: "lexer/helpers.go", Old: "0x80 | byte((codePoint>>12)&0x3F),", New: "0x80 | byte((codePoint>>10)&0x3F),", Rule: "R7.5", Construct: "U+10000..U+10FFFF"},
+		variant{Prop: "C07", Name: "benign-utf8-exclusive-bounds", File: "lexer/helpers.go", Old: "if codePoint <= 0x7F {", New: "if codePoint < 0x80 {", More: []edit{{File: "lexer/helpers.go", Old: "} else if codePoint <= 0x7FF {", New: "} else if codePoint < 0x800 {"}, {File: "lexer/helpers.go", Old: "} else if codePoint <= 0x10FFFF {", New: "} else if codePoint < 0x110000 {"}}, Benign: true},
 		// R12.5 scanner exits
 		variant{Prop: "C12", Name: "string-scan-stops-on-lookahead", File: lx, Old: "\tfor {\n\t\tl.ReadChar()\n\t\tif l.CurrentChar == 0 {\n\t\t\tbreak\n\t\t}\n\t\t// Handle escape sequences", New: "\tfor l.PeekChar() != 0 {\n\t\tl.ReadChar()\n\t\t// Handle escape sequences", Rule: "R12.5", Construct: "end-of-input exit"},
 	)
